@@ -1363,6 +1363,8 @@ def _builtin(interp, name, node, args, kwargs, st, fresh, deps, pdeps):
     if name in ("str", "repr"):
         return Val(dim=D0, kind="str", deps=deps, born=t, extra=("str", a0))
     if name == "getattr":
+        if a0 is not None and a0.kind in ("module", "class", "ext") and len(args) > 1 and args[1].has_const() and isinstance(args[1].const, str):
+            return interp.getattr_val(a0, args[1].const, st, node)          # getattr(io, "to_obj"): the named member
         if a0 is not None and a0.obj is not None and len(args) > 1:
             if args[1].has_const() and isinstance(args[1].const, str):
                 return interp.getattr_val(a0, args[1].const, st, node)
